@@ -7,6 +7,7 @@ import Golem.Props.C07
 import Golem.Props.Stage.PipeCatch
 import Golem.Props.Stage.PipeMap
 import Golem.Props.Stage.PipeFMap
+import Golem.Props.Stage.PipeSources
 namespace Golem.Props.C07
 open Golem.Go Golem.Go.Stage Golem.Go.Pool Golem.Model Golem.Model.DSL Golem.Lemmas Golem.Lemmas.StageErr Golem.Props.Stage
 
@@ -40,5 +41,15 @@ theorem tryF_partition_gen (g : α → List β × Option ε) (inCap : Nat) {p : 
     p.delivered 1 ++ (p.outs 1).buf = ((p.sent 0).filterMap fun a => (g a).2).map Sum.inr := by
   rw [PipeFMap.stage_gen, PipeFMap.cfg_gen, Cfg.pool_one _ rfl] at hr
   exact tryF_partition g inCap _ hr hc hx hcl
+
+/-- Emit / Unfold as regenerated: a failing call performs exactly the `catch` of its error mode (plain send and stop
+for Lift, select-send and continue for Try) and no send on `out`; a successful Emit call exactly one send on `out` -/
+theorem emit_error_iter_gen (m : ErrMode) (freq : Nat) (f : Nat → α × Option ε) (i : Nat) (e : ε) (h : (f i).2 = some e) :
+    (DSLT.emitIter m freq f i) = ([.sleep freq, DSLT.catchAct m e], catchAfter m) := by
+  simp [DSLT.emitIter, h]
+
+theorem emit_ok_iter_gen (m : ErrMode) (freq : Nat) (f : Nat → α × Option ε) (i : Nat) (h : (f i).2 = none) :
+    (DSLT.emitIter m freq f i) = ([.sleep freq, .send 0 (.inl (f i).1) .sel], .cont) := by
+  simp [DSLT.emitIter, h]
 
 end Golem.Props.C07
